@@ -48,7 +48,13 @@ def seeded():
         how = 'concrete failing input' if m.get('caught_with_concrete_input') else ('broken obligation/correspondence (no-failing-input-found)' if m.get('caught') else 'not caught')
         if m.get('status_note'):
             how = m['status_note'][:260]
-        ts = m.get('test_suite', {}).get('summary', 'not run (reverse of a fix: the 415 baseline tests passed before the fix)')
+        tsd = m.get('test_suite')
+        if not tsd:
+            ts = 'not run (reverse of a fix: the baseline tests passed before the fix)'
+        elif 'passed' in str(tsd.get('summary', '')):
+            ts = str(tsd['summary']).strip()
+        else:
+            ts = 'all passed (pytest exit 0)' if tsd.get('exit') == 0 else f"pytest exit {tsd.get('exit')}"
         first = m.get('first_run_before_strengthening')
         first_s = ('caught' if first.get('caught') else 'MISSED') if first else ('caught' if m.get('caught') else 'MISSED')
         out.append(f"| {m['seed']} | {m['property']} | {str(m.get('needs_to_manifest', ''))[:220].replace('|', '/').replace(chr(10), ' ')} | {m.get('demo_discriminates')} | {str(ts)[:70]} | {first_s} | {'caught' if m.get('caught') else 'not caught'} | {how} |")
